@@ -1002,6 +1002,16 @@ func (e *SpecEnv) call(x *spec.Call) Val {
 			tc, _ := vc.traceCells(e.state())
 			return Val{T: B, Term: fmt.Sprintf("(= (ev_tag (select %s %s)) %s)", e.state().cells[tc], argT(0), vc.effectTag(sl.Val))}
 		}
+	case "evPtrIs":
+		// evPtrIs(k, v): the first pointer argument of the call recorded as event k is &v (v a variable of the function)
+		if need(2) {
+			loc, _ := e.compileLoc(x.Args[1])
+			if loc == nil || len(loc.Path) != 0 {
+				return e.fail(x, "evPtrIs: second argument must name a variable whose address is taken")
+			}
+			tc, _ := vc.traceCells(e.state())
+			return Val{T: B, Term: fmt.Sprintf("(= (ev_ptr (select %s %s)) %d)", e.state().cells[tc], argT(0), loc.Cell.id)}
+		}
 	case "evArg":
 		// evArg(k, T): the first non-string argument of the call recorded as event k, as a value of type T
 		if need(2) {
